@@ -88,6 +88,7 @@ def gen(rng):
         n = rng.choice([101, 257, 1001, 1025]) + rng.choice([0, 1, 3])      # a list past a round length: indices of 3 and 4 digits
     used = set()
     twins = [0]
+    deep_ = [0]
     dates = [TG.rand_date(rng) for _ in range(4)]
     dstmode = rng.random() < 0.12
     if dstmode:
@@ -104,6 +105,10 @@ def gen(rng):
         else:
             d = rng.choice([top + '/a', top + '/a/foo', top + '/ab', top])
         loc = d + '/' + rng.choice(cand) + ('-%d' % i if n > 100 and i >= 8 else '')
+        if rng.random() < 0.04 and n <= 100:
+            # a deep location of multi-byte names (far below PATH_MAX): its escaped Path value is three times as long, 5-10 KB
+            loc = d + '/' + '/'.join(rng.choice(['é', 'ж', '日']) * rng.choice([60, 80]) + str(k_) for k_ in range(rng.randint(9, 12))) + '/' + rng.choice(cand)
+            deep_[0] += 1
         if loc in used:
             continue
         if any(u.startswith(loc + '/') or loc.startswith(u + '/') for u in used) and rng.random() < 0.6:
